@@ -153,7 +153,7 @@ def g_offset(rng):
 
 
 def g_metadata(rng):
-    nb = rng.choice([0, 1, 3, 3, 5, rng.choice([1024, 1025]) if rng.random() < 0.08 else 2])
+    nb = rng.choice([0, 1, 3, 3, 5, 2, 12, 40, rng.choice([300, 1024, 1025]) if rng.random() < 0.3 else 7])
     brokers = [[i if rng.random() < 0.9 else i32(rng), rng.choice([b"kafka", b"b", b"10.0.0.", b"host-"]) + str(i % 7).encode(), rng.choice([9092, 0, 65535, i32(rng)])] for i in range(nb)]
     if brokers and rng.random() < 0.03:
         brokers[-1][1] = "hôst".encode()
